@@ -182,6 +182,9 @@ class ExecCall(ExecExpr):
         if name == "get" and self.is_dict(recv):
             yield st, self.dict_get(st, recv, args[0], args[1] if len(args) > 1 else NONE)
             return
+        if name == "keys" and self.is_dict(recv) and not args:
+            yield st, self.dict_keys(st, recv)
+            return
         raise EngineError(f"container method {name}")
 
     # ------------------------------------------------------------------ builtins
@@ -678,11 +681,14 @@ class ExecCall(ExecExpr):
             s.env = dict(s0.env)
             elem = self.seq_elem(s, seq, j)
             self.bind_target(s, g.target, VTuple([V("int", j), elem]) if enum else elem)
+            mark = w._fresh
             kv = self.eval1(node.key, s)
             vv = self.eval1(node.value, s)
             if not isinstance(kv, V) or not isinstance(vv, V):
                 raise EngineError("dict comprehension with non-scalar key / value")
             extra = s.pc[base:]
+            (kt, vt2), extra = self.skolemize_over(j, mark, [kv.t, vv.t], extra)
+            kv, vv = V(kv.kind, kt, kv.cls), V(vv.kind, vt2, vv.cls)
             if extra:
                 s0.assume(z3.ForAll([j], z3.Implies(rng, z3.And(extra))))
             kind = ("dict", kv.kind if not (isinstance(kv.kind, tuple) and kv.kind[0] == "ref" and kv.cls) else ("ref", w.short_name(kv.cls)), vv.kind)
@@ -699,6 +705,37 @@ class ExecCall(ExecExpr):
             s0.assume(z3.ForAll([j], z3.Implies(rng, has(ver, d.t, kv.t))))
             yield s0, d
 
+    def skolemize_over(self, j, mark, *term_lists):
+        """replace every uninterpreted constant whose name was generated after `mark` (other than j) by an application f(j)"""
+        import re
+        consts = {}
+        seen = set()
+
+        def walk(t):
+            if t.get_id() in seen:
+                return
+            seen.add(t.get_id())
+            if z3.is_quantifier(t):
+                walk(t.body())
+                return
+            if z3.is_app(t):
+                if t.num_args() == 0 and t.decl().kind() == z3.Z3_OP_UNINTERPRETED and not t.eq(j):
+                    m = re.search(r"!(\d+)$", t.decl().name())
+                    if m and int(m.group(1)) > mark:
+                        consts[t.get_id()] = t
+                for c in t.children():
+                    walk(c)
+        for lst in term_lists:
+            for t in lst:
+                walk(t)
+        if not consts:
+            return term_lists
+        pairs = []
+        for c in consts.values():
+            f = z3.Function(c.decl().name() + "@idx", z3.IntSort(), c.sort())
+            pairs.append((c, f(j)))
+        return tuple([z3.substitute(t, *pairs) for t in lst] for lst in term_lists)
+
     def filter_map(self, st, it, g, elt):
         w = self.w
         j = z3.Int(w.fresh_name("c"))
@@ -710,11 +747,16 @@ class ExecCall(ExecExpr):
         base = len(s.pc)
         s.env = dict(st.env)
         self.bind_target(s, g.target, self.seq_elem(s, it, j))
+        mark = w._fresh
         conds = [self.truth(self.eval1(c, s)) for c in g.ifs]
         val = self.eval1(elt, s)
         if not isinstance(val, V):
             raise EngineError("comprehension element is not a scalar/reference")
         extra = s.pc[base:]
+        # values created while evaluating the element for the symbolic index j (results of contract calls, fresh objects) are
+        # DIFFERENT for different j: every constant introduced after `mark` becomes a function of j
+        conds, (vt,), extra = self.skolemize_over(j, mark, conds, [val.t], extra)
+        val = V(val.kind, vt, val.cls)
         if facts or extra:
             st.assume(z3.ForAll([j], z3.Implies(rng, z3.And(facts + extra))))
         r = w.fresh(("seq", val.kind), "comp")
